@@ -25,22 +25,40 @@ theorem mem_scanList (ord : List Nat) (all : List (Nat × CLink)) (l : CLink) :
 /-! ### synchronisation invariant -/
 
 /-- Every dataset of the collection holds exactly what `discover_links` computes from the current
-links (for the scan order of its last update). -/
+links (scanned in some order), with enough recursion fuel. -/
 def Synced (s : MState) : Prop :=
-  ∀ D ∈ s.dsets, ∃ ord, D.cache = discoverLinks D.comps (scanList ord (effLinks s.ext)) ∧
-    D.fuel = (scanList ord (effLinks s.ext)).length + 1
+  ∀ D ∈ s.dsets, ∃ ls', (∀ l, l ∈ ls' ↔ l ∈ curLinks s) ∧ D.cache = discoverLinks D.comps ls' ∧
+    ls'.length + 1 ≤ D.fuel
 
 def Good (s : MState) : Prop := s.delay = 0 → Synced s
 
 @[simp] theorem update_ext (ord : List Nat) (s : MState) : (update ord s).ext = s.ext := rfl
 @[simp] theorem update_delay (ord : List Nat) (s : MState) : (update ord s).delay = s.delay := rfl
 @[simp] theorem update_vals (ord : List Nat) (s : MState) : (update ord s).vals = s.vals := rfl
+@[simp] theorem update_outside (ord : List Nat) (s : MState) : (update ord s).outside = s.outside := rfl
+
+theorem flatMap_derived_map (ds : List DSet) (f : DSet → DSet) (hf : ∀ D, (f D).derived = D.derived) :
+    (ds.map f).flatMap (·.derived) = ds.flatMap (·.derived) := by
+  induction ds with
+  | nil => rfl
+  | cons a r ih => simp [List.flatMap_cons, hf, ih]
+
+theorem effLinks_update (ord : List Nat) (s : MState) : effLinks (update ord s) = effLinks s := by
+  have := flatMap_derived_map s.dsets (fun D => { D with
+    cache := discoverLinks D.comps (scanList ord (effLinks s)),
+    fuel := (scanList ord (effLinks s)).length + 1 }) (fun _ => rfl)
+  exact congrArg (· ++ effLinksExt s.ext) this
+
+theorem curLinks_update (ord : List Nat) (s : MState) : curLinks (update ord s) = curLinks s := by
+  simp only [curLinks, effLinks_update]
 
 theorem synced_update (ord : List Nat) (s : MState) : Synced (update ord s) := by
   intro D hD
   simp only [update, List.mem_map] at hD
   obtain ⟨D0, _, rfl⟩ := hD
-  exact ⟨ord, rfl, rfl⟩
+  refine ⟨scanList ord (effLinks s), fun l => ?_, rfl, Nat.le_refl _⟩
+  rw [curLinks_update]
+  exact mem_scanList ord (effLinks s) l
 
 theorem good_update (ord : List Nat) (s : MState) : Good (update ord s) :=
   fun _ => synced_update ord s
@@ -61,90 +79,44 @@ theorem good_dropLinks (ord : List Nat) (p : Entry → Bool) {s : MState} (h : G
   · exact h
 
 /-- A state with the same links and delay counter whose collection datasets all come from `s`. -/
-theorem good_sub {s s' : MState} (h : Good s) (hd : s'.delay = s.delay) (he : s'.ext = s.ext)
+theorem good_sub {s s' : MState} (h : Good s) (hd : s'.delay = s.delay) (he : effLinks s' = effLinks s)
     (hs : ∀ D ∈ s'.dsets, D ∈ s.dsets) : Good s' := by
   intro h0
   intro D hD
   have := h (by rw [← hd]; exact h0) D (hs D hD)
-  rw [he]; exact this
+  simp only [curLinks, he]; exact this
 
-theorem good_step (ord : List Nat) (s : MState) (op : Op) (hG : Good s) :
-    Good (step ord s op).1 := by
-  cases op with
-  | newData d comps => exact good_sub hG rfl rfl (fun D h => h)
-  | append d =>
-    simp only [step]
+/-! ### induction principle for the cascade `removeRec` -/
+
+theorem foldl_ind {β γ : Type} (P : β → Prop) (f : β → γ → β) (h : ∀ b x, P b → P (f b x)) :
+    ∀ (xs : List γ) (b : β), P b → P (xs.foldl f b) := by
+  intro xs
+  induction xs with
+  | nil => intro b hb; exact hb
+  | cons x r ih => intro b hb; exact ih _ (h b x hb)
+
+theorem removeRec_ind (P : MState → Prop) (ord : List Nat) (inDc : Bool) (d : Nat)
+    (hmod : ∀ s c, P s → P (modAt inDc s d (popCid c)))
+    (hdrop : ∀ s p, P s → P (dropLinks ord p s))
+    (hsync : ∀ s, P s → P (sync ord s)) :
+    ∀ n s c, P s → P (removeRec ord inDc d n s c) := by
+  intro n
+  induction n with
+  | zero => intro s c h; exact h
+  | succ n ih =>
+    intro s c h
+    simp only [removeRec]
     split
-    · exact hG
-    · exact good_sync ord _
-  | remove d =>
-    simp only [step]
-    split
-    · exact hG
-    · apply good_dropLinks
-      exact good_sub hG rfl rfl (fun D h => (List.mem_filter.mp h).1)
-  | addComp d c v =>
-    simp only [step]
-    split
+    · exact h
     · split
-      · exact hG
-      · exact good_sync ord _
-    · split
-      · exact hG
-      · split
-        · exact hG
-        · exact good_sub hG rfl rfl (fun D h => h)
-  | removeComp d c =>
-    simp only [step]
-    split
-    · split
-      · exact good_sync ord _
-      · exact hG
-    · split
-      · exact hG
-      · split
+      · have h2 := fun xs => foldl_ind P (fun s z => removeRec ord inDc d n s z)
+          (fun b z hb => ih b z hb) xs _ (hmod s c h)
+        split
+        · exact hsync _ (hdrop _ _ (h2 _))
         · split
-          · apply good_dropLinks
-            exact good_sub hG rfl rfl (fun D h => h)
-          · exact good_sub hG rfl rfl (fun D h => h)
-        · exact hG
-  | addLink e =>
-    simp only [step]
-    split
-    · exact hG
-    · split
-      · exact hG
-      · exact good_sync ord _
-  | addLinks es =>
-    simp only [step]
-    exact good_sync ord _
-  | removeLink i =>
-    simp only [step]
-    split
-    · exact hG
-    · exact good_sync ord _
-  | removeLinks is =>
-    simp only [step]
-    exact good_sync ord _
-  | delayBegin =>
-    apply good_of_delay
-    simp [step]
-  | delayEnd =>
-    simp only [step]
-    split
-    · exact hG
-    · exact good_sync ord _
-
-theorem good_init : Good MState.init := by
-  intro _ D hD
-  simp [MState.init] at hD
-
-theorem good_run (s : MState) (ops : List (Op × List Nat)) (hG : Good s) : Good (run s ops) := by
-  induction ops generalizing s with
-  | nil => exact hG
-  | cons a r ih =>
-    obtain ⟨op, ord⟩ := a
-    exact ih _ (good_step ord s op hG)
+          · exact hdrop _ _ (h2 _)
+          · exact h2 _
+      · exact h
 
 /-! ### no stored link mentions a removed cid / dataset -/
 
@@ -162,9 +134,14 @@ theorem mem_cids_mentions (e : Entry) (c : Cid) : c ∈ e.cids ↔ e.mentions c 
   · rintro ⟨o, ho, h⟩
     exact ⟨o, ho, h.symm⟩
 
+theorem liveCid_iff (s : MState) (c : Cid) :
+    liveCid s c = true ↔ ((c.1 == freeDs) = true ∨ ∃ D ∈ s.dsets, c ∈ D.ids) := by
+  simp [liveCid]
+
 theorem liveCid_update (ord : List Nat) (s : MState) (c : Cid) :
     liveCid (update ord s) c = liveCid s c := by
-  simp [liveCid, update, List.any_map, Function.comp_def]
+  simp only [liveCid, update, List.any_map]
+  rfl
 
 theorem liveCid_sync (ord : List Nat) (s : MState) (c : Cid) :
     liveCid (sync ord s) c = liveCid s c := by
@@ -174,6 +151,9 @@ theorem liveCid_sync (ord : List Nat) (s : MState) (c : Cid) :
   · rfl
 
 theorem sync_ext (ord : List Nat) (s : MState) : (sync ord s).ext = s.ext := by
+  unfold sync; split <;> rfl
+
+theorem sync_outside (ord : List Nat) (s : MState) : (sync ord s).outside = s.outside := by
   unfold sync; split <;> rfl
 
 theorem nd_sync (ord : List Nat) {s : MState} (h : ND s) : ND (sync ord s) := by
@@ -191,21 +171,33 @@ theorem nd_mono {s s' : MState} (h : ND s)
   · exact hlive c (h e h1 c hc)
   · exact h2 c hc
 
-theorem nd_dropLinks (ord : List Nat) (p : Entry → Bool) (s : MState)
-    (h : ∀ e ∈ s.ext, p e = false → ∀ c ∈ e.cids, liveCid s c = true) : ND (dropLinks ord p s) := by
+theorem dropLinks_ext_sub (ord : List Nat) (p : Entry → Bool) (s : MState) :
+    ∀ e ∈ (dropLinks ord p s).ext, e ∈ s.ext ∧ p e = false := by
   unfold dropLinks
   split
-  · intro e he c hc
-    rw [liveCid_update]
+  · intro e he
     simp only [update_ext, List.mem_filter, Bool.not_eq_true'] at he
-    exact h e he.1 he.2 c hc
+    exact he
   · rename_i hany
-    intro e he c hc
-    have : p e = false := by
-      cases hp : p e with
-      | false => rfl
-      | true => exact absurd (List.any_eq_true.mpr ⟨e, he, hp⟩) hany
-    exact h e he this c hc
+    intro e he
+    refine ⟨he, ?_⟩
+    cases hp : p e with
+    | false => rfl
+    | true => exact absurd (List.any_eq_true.mpr ⟨e, he, hp⟩) hany
+
+theorem liveCid_dropLinks (ord : List Nat) (p : Entry → Bool) (s : MState) (c : Cid) :
+    liveCid (dropLinks ord p s) c = liveCid s c := by
+  unfold dropLinks
+  split
+  · rw [liveCid_update]; rfl
+  · rfl
+
+theorem nd_dropLinks (ord : List Nat) (p : Entry → Bool) (s : MState)
+    (h : ∀ e ∈ s.ext, p e = false → ∀ c ∈ e.cids, liveCid s c = true) : ND (dropLinks ord p s) := by
+  intro e he c hc
+  rw [liveCid_dropLinks]
+  obtain ⟨h1, h2⟩ := dropLinks_ext_sub ord p s e he
+  exact h e h1 h2 c hc
 
 theorem addOne_mem {ext ext' : List Entry} {e : Entry} (h : addOne ext e = .ok ext') :
     ∀ x ∈ ext', x ∈ ext ∨ x = e := by
@@ -278,17 +270,405 @@ theorem removeMany_mem (is : List Nat) : ∀ ext : List Entry,
       exact eraseId_mem h1 x (ih ext' x hx)
     · exact hx
 
-theorem liveCid_of_mem {s : MState} {c : Cid} {D : DSet} (hD : D ∈ s.dsets) (hc : c ∈ D.comps) :
-    liveCid s c = true := by
-  simp only [liveCid, Bool.or_eq_true, List.any_eq_true, decide_eq_true_eq]
-  exact Or.inr ⟨D, hD, hc⟩
+theorem liveCid_of_mem {s : MState} {c : Cid} {D : DSet} (hD : D ∈ s.dsets) (hc : c ∈ D.ids) :
+    liveCid s c = true :=
+  (liveCid_iff s c).mpr (Or.inr ⟨D, hD, hc⟩)
 
-theorem liveCid_cases {s : MState} {c : Cid} (h : liveCid s c = true) :
-    (c.1 == freeDs) = true ∨ ∃ D ∈ s.dsets, c ∈ D.comps := by
-  simpa [liveCid] using h
+theorem liveCid_of_free {s : MState} {c : Cid} (h : (c.1 == freeDs) = true) : liveCid s c = true :=
+  (liveCid_iff s c).mpr (Or.inl h)
 
-theorem liveCid_of_free {s : MState} {c : Cid} (h : (c.1 == freeDs) = true) : liveCid s c = true := by
-  simp [liveCid, h]
+/-- Liveness only depends on the ids of the datasets of the collection. -/
+theorem liveCid_mono {s s' : MState} {c : Cid} (h : liveCid s c = true)
+    (hd : ∀ D ∈ s.dsets, c ∈ D.ids → ∃ D' ∈ s'.dsets, c ∈ D'.ids) : liveCid s' c = true := by
+  rcases (liveCid_iff s c).mp h with hf | ⟨D, hD, hc⟩
+  · exact liveCid_of_free hf
+  · obtain ⟨D', hD', hc'⟩ := hd D hD hc
+    exact liveCid_of_mem hD' hc'
+
+theorem mem_modDs {ds : List DSet} {d : Nat} {f : DSet → DSet} {X : DSet} (h : X ∈ modDs ds d f) :
+    ∃ D ∈ ds, X = if D.id = d then f D else D := by
+  simp only [modDs, List.mem_map] at h
+  obtain ⟨D, hD, rfl⟩ := h
+  exact ⟨D, hD, rfl⟩
+
+theorem modDs_mem {ds : List DSet} (d : Nat) (f : DSet → DSet) {D : DSet} (h : D ∈ ds) :
+    (if D.id = d then f D else D) ∈ modDs ds d f := by
+  simp only [modDs, List.mem_map]
+  exact ⟨D, h, rfl⟩
+
+theorem mem_ids_pop {D : DSet} {c c' : Cid} (h : c' ∈ D.ids) (hne : c' ≠ c) : c' ∈ (popCid c D).ids := by
+  simp only [DSet.ids, DSet.derivedIds, popCid, List.mem_append, List.mem_map, List.mem_filter] at h ⊢
+  rcases h with h | ⟨p, hp, rfl⟩
+  · exact Or.inl ⟨h, by simpa using hne⟩
+  · exact Or.inr ⟨p, ⟨hp, by simpa using hne⟩, rfl⟩
+
+theorem mem_ids_of_pop {D : DSet} {c c' : Cid} (h : c' ∈ (popCid c D).ids) : c' ∈ D.ids := by
+  simp only [DSet.ids, DSet.derivedIds, popCid, List.mem_append, List.mem_map, List.mem_filter] at h ⊢
+  rcases h with h | ⟨p, hp, rfl⟩
+  · exact Or.inl h.1
+  · exact Or.inr ⟨p, hp.1, rfl⟩
+
+/-! ### the cascade forgets every cid it removes -/
+
+/-- Relative no-dangling: every cid (satisfying `L`) mentioned by a stored link is live or is one of
+the popped-but-not-yet-announced cids `X`. -/
+def RX (L : Cid → Prop) (X : List Cid) (s : MState) : Prop :=
+  ∀ e ∈ s.ext, ∀ c ∈ e.cids, L c → liveCid s c = true ∨ c ∈ X
+
+theorem rx_sync {L : Cid → Prop} {X : List Cid} (ord : List Nat) {s : MState} (h : RX L X s) :
+    RX L X (sync ord s) := by
+  intro e he c hc hl
+  rw [sync_ext] at he
+  rw [liveCid_sync]
+  exact h e he c hc hl
+
+theorem rx_dropLinks {L : Cid → Prop} {X : List Cid} (ord : List Nat) (p : Entry → Bool) {s : MState}
+    (h : RX L X s) : RX L X (dropLinks ord p s) := by
+  intro e he c hc hl
+  rw [liveCid_dropLinks]
+  exact h e (dropLinks_ext_sub ord p s e he).1 c hc hl
+
+theorem removeRec_rx_in (L : Cid → Prop) (ord : List Nat) (d : Nat) :
+    ∀ n s c X, RX L X s → RX L X (removeRec ord true d n s c) := by
+  intro n
+  induction n with
+  | zero => intro s c X h; exact h
+  | succ n ih =>
+    intro s c X h
+    simp only [removeRec]
+    split
+    · exact h
+    · split
+      · -- after the pop: `c` joins the pending cids
+        have h1 : RX L (c :: X) (modAt true s d (popCid c)) := by
+          intro e he c' hc' hl
+          by_cases hcc : c' = c
+          · exact Or.inr (by simp [hcc])
+          · rcases h e he c' hc' hl with hlive | hx
+            · left
+              refine liveCid_mono hlive ?_
+              intro D hD hcD
+              refine ⟨_, modDs_mem d (popCid c) hD, ?_⟩
+              split
+              · exact mem_ids_pop hcD hcc
+              · exact hcD
+            · exact Or.inr (List.mem_cons_of_mem _ hx)
+        have h2 := fun xs => foldl_ind (RX L (c :: X)) (fun s z => removeRec ord true d n s z)
+          (fun b z hb => ih b z (c :: X) hb) xs _ h1
+        simp only [if_true]
+        apply rx_sync
+        intro e he c' hc' hl
+        rw [liveCid_dropLinks]
+        obtain ⟨he1, he2⟩ := dropLinks_ext_sub ord _ _ e he
+        rcases h2 _ e he1 c' hc' hl with hlive | hx
+        · exact Or.inl hlive
+        · rcases List.mem_cons.mp hx with rfl | hx'
+          · rw [(mem_cids_mentions e c').mp hc'] at he2; cases he2
+          · exact Or.inr hx'
+      · exact h
+
+theorem liveCid_modAt_false (s : MState) (d : Nat) (f : DSet → DSet) (c : Cid) :
+    liveCid (modAt false s d f) c = liveCid s c := rfl
+
+theorem removeRec_rx_out (L : Cid → Prop) (X : List Cid) (ord : List Nat) (d : Nat) :
+    ∀ n s c, RX L X s → RX L X (removeRec ord false d n s c) :=
+  removeRec_ind (RX L X) ord false d (fun _ _ h => h) (fun _ p h => rx_dropLinks ord p h)
+    (fun _ h => rx_sync ord h)
+
+theorem removeRec_rx (L : Cid → Prop) (X : List Cid) (ord : List Nat) (inDc : Bool) (d : Nat)
+    (n : Nat) (s : MState) (c : Cid) (h : RX L X s) : RX L X (removeRec ord inDc d n s c) := by
+  cases inDc
+  · exact removeRec_rx_out L X ord d n s c h
+  · exact removeRec_rx_in L ord d n s c X h
+
+theorem removeRec_ext_sub (ord : List Nat) (inDc : Bool) (d : Nat) (n : Nat) (s : MState) (c : Cid) :
+    ∀ e ∈ (removeRec ord inDc d n s c).ext, e ∈ s.ext :=
+  removeRec_ind (fun s' => ∀ e ∈ s'.ext, e ∈ s.ext) ord inDc d
+    (fun s' c' h => by cases inDc <;> exact h)
+    (fun s' p h e he => h e (dropLinks_ext_sub ord p s' e he).1)
+    (fun s' h e he => h e (by rw [sync_ext] at he; exact he)) n s c (fun _ h => h)
+
+/-- Whatever was live before a component removal and is mentioned by a surviving link is still
+live: every cid the cascade removed (the requested one and all its dependents) has been forgotten. -/
+theorem removeRec_forgets (ord : List Nat) (inDc : Bool) (d : Nat) (n : Nat) (s : MState) (c : Cid) :
+    ∀ e ∈ (removeRec ord inDc d n s c).ext, ∀ c' ∈ e.cids, liveCid s c' = true →
+      liveCid (removeRec ord inDc d n s c) c' = true := by
+  have h0 : RX (fun c' => liveCid s c' = true) [] s := fun e _ c' _ hl => Or.inl hl
+  intro e he c' hc' hl
+  rcases removeRec_rx _ [] ord inDc d n s c h0 e he c' hc' hl with h | h
+  · exact h
+  · cases h
+
+theorem nd_removeRec (ord : List Nat) (inDc : Bool) (d : Nat) (n : Nat) {s : MState} (c : Cid)
+    (h : ND s) : ND (removeRec ord inDc d n s c) := by
+  intro e he c' hc'
+  exact removeRec_forgets ord inDc d n s c e he c' hc'
+    (h e (removeRec_ext_sub ord inDc d n s c e he) c' hc')
+
+/-! ### datasets own their cids -/
+
+/-- The dataset's cids carry its id, and a derived attribute reads at least one attribute. -/
+def Owned (X : DSet) : Prop :=
+  X.id ≠ freeDs ∧ (∀ c ∈ X.comps, c.1 = X.id) ∧
+    ∀ p ∈ X.derived, p.2.to.1 = X.id ∧ p.2.froms ≠ [] ∧ ∀ f ∈ p.2.froms, f.1 = X.id
+
+def WFS (s : MState) : Prop := (∀ X ∈ s.dsets, Owned X) ∧ (∀ X ∈ s.outside, Owned X)
+
+theorem owned_sub {X X' : DSet} (h : Owned X) (hid : X'.id = X.id) (hc : ∀ c ∈ X'.comps, c ∈ X.comps)
+    (hd : ∀ p ∈ X'.derived, p ∈ X.derived) : Owned X' :=
+  ⟨by rw [hid]; exact h.1, fun c hc' => by rw [hid]; exact h.2.1 c (hc c hc'),
+   fun p hp => by rw [hid]; exact h.2.2 p (hd p hp)⟩
+
+theorem owned_ids {X : DSet} (h : Owned X) {c : Cid} (hc : c ∈ X.ids) : c.1 = X.id := by
+  simp only [DSet.ids, DSet.derivedIds, List.mem_append, List.mem_map] at hc
+  rcases hc with hc | ⟨p, hp, rfl⟩
+  · exact h.2.1 c hc
+  · exact (h.2.2 p hp).1
+
+theorem owned_modDs {ds : List DSet} {d : Nat} {f : DSet → DSet} (h : ∀ X ∈ ds, Owned X)
+    (hf : ∀ X ∈ ds, X.id = d → Owned X → Owned (f X)) : ∀ X ∈ modDs ds d f, Owned X := by
+  intro X hX
+  obtain ⟨D, hD, rfl⟩ := mem_modDs hX
+  split
+  · rename_i hid; exact hf D hD hid (h D hD)
+  · exact h D hD
+
+theorem wfs_update (ord : List Nat) {s : MState} (h : WFS s) : WFS (update ord s) := by
+  refine ⟨?_, h.2⟩
+  intro X hX
+  simp only [update, List.mem_map] at hX
+  obtain ⟨D, hD, rfl⟩ := hX
+  exact owned_sub (h.1 D hD) rfl (fun _ hc => hc) (fun _ hp => hp)
+
+theorem wfs_sync (ord : List Nat) {s : MState} (h : WFS s) : WFS (sync ord s) := by
+  unfold sync; split
+  · exact wfs_update ord h
+  · exact h
+
+theorem wfs_dropLinks (ord : List Nat) (p : Entry → Bool) {s : MState} (h : WFS s) :
+    WFS (dropLinks ord p s) := by
+  unfold dropLinks; split
+  · exact wfs_update ord (s := { s with ext := _ }) h
+  · exact h
+
+theorem owned_pop {X : DSet} (c : Cid) (h : Owned X) : Owned (popCid c X) :=
+  owned_sub h rfl (fun _ hc => (List.mem_filter.mp hc).1) (fun _ hp => (List.mem_filter.mp hp).1)
+
+theorem wfs_modAt {s : MState} (inDc : Bool) (d : Nat) {f : DSet → DSet} (h : WFS s)
+    (hf : ∀ X, X.id = d → Owned X → Owned (f X)) : WFS (modAt inDc s d f) := by
+  cases inDc
+  · exact ⟨h.1, owned_modDs h.2 (fun X _ => hf X)⟩
+  · exact ⟨owned_modDs h.1 (fun X _ => hf X), h.2⟩
+
+theorem wfs_removeRec (ord : List Nat) (inDc : Bool) (d : Nat) (n : Nat) {s : MState} (c : Cid)
+    (h : WFS s) : WFS (removeRec ord inDc d n s c) :=
+  removeRec_ind WFS ord inDc d (fun _ c h => wfs_modAt inDc d h (fun _ _ ho => owned_pop c ho))
+    (fun _ p h => wfs_dropLinks ord p h) (fun _ h => wfs_sync ord h) n s c h
+
+theorem mem_of_findDs {ds : List DSet} {d : Nat} {D : DSet} (h : findDs ds d = some D) :
+    D ∈ ds ∧ D.id = d := by
+  unfold findDs at h
+  exact ⟨List.mem_of_find?_eq_some h, by simpa using List.find?_some h⟩
+
+theorem owned_rename {X : DSet} {old new : Cid} (h : Owned X) (hn : new.1 = X.id) :
+    Owned (renameDs old new X) := by
+  have hr : ∀ c : Cid, c.1 = X.id → (renameCid old new c).1 = X.id := by
+    intro c hc; unfold renameCid; split
+    · exact hn
+    · exact hc
+  refine ⟨h.1, ?_, ?_⟩
+  · intro c hc
+    simp only [renameDs, List.mem_map] at hc
+    obtain ⟨c0, hc0, rfl⟩ := hc
+    exact hr c0 (h.2.1 c0 hc0)
+  · intro p hp
+    simp only [renameDs, List.mem_map] at hp
+    obtain ⟨p0, hp0, rfl⟩ := hp
+    obtain ⟨h1, h2, h3⟩ := h.2.2 p0 hp0
+    refine ⟨hr _ h1, ?_, ?_⟩
+    · simpa [renameLink] using h2
+    · intro f hf
+      simp only [renameLink, List.mem_map] at hf
+      obtain ⟨f0, hf0, rfl⟩ := hf
+      exact hr f0 (h3 f0 hf0)
+
+theorem owned_alias {X : DSet} (links : List CLink) (old new : Cid) (h : Owned X) :
+    Owned (aliasCache links old new X) :=
+  owned_sub h rfl (fun _ hc => hc) (fun _ hp => hp)
+
+theorem wfs_step (ord : List Nat) (s : MState) (op : Op) (h : WFS s) (hw : wfOp s op = true) :
+    WFS (step ord s op).1 := by
+  cases op with
+  | newData d comps =>
+    simp only [wfOp, Bool.and_eq_true, List.all_eq_true, bne_iff_ne, ne_eq, beq_iff_eq] at hw
+    refine ⟨h.1, ?_⟩
+    intro X hX
+    simp only [step, List.mem_append, List.mem_singleton] at hX
+    rcases hX with hX | rfl
+    · exact h.2 X hX
+    · refine ⟨hw.2, ?_, by simp⟩
+      intro c hc
+      simp only [List.mem_map] at hc
+      obtain ⟨p, hp, rfl⟩ := hc
+      exact hw.1 p hp
+  | append d =>
+    simp only [step]
+    split
+    · exact h
+    · rename_i D hf
+      apply wfs_sync
+      refine ⟨?_, fun X hX => h.2 X (List.mem_filter.mp hX).1⟩
+      intro X hX
+      rcases List.mem_append.mp hX with hX | hX
+      · exact h.1 X hX
+      · simp only [List.mem_singleton] at hX
+        subst hX
+        exact owned_sub (h.2 D (mem_of_findDs hf).1) rfl (fun _ hc => hc) (fun _ hp => hp)
+  | remove d =>
+    simp only [step]
+    split
+    · exact h
+    · apply wfs_dropLinks
+      refine ⟨fun X hX => h.1 X (List.mem_filter.mp hX).1, ?_⟩
+      intro X hX
+      rcases List.mem_append.mp hX with hX | hX
+      · exact h.2 X hX
+      · exact h.1 X (List.mem_filter.mp hX).1
+  | addComp d c v =>
+    simp only [wfOp, beq_iff_eq] at hw
+    have hf : ∀ X : DSet, X.id = d → Owned X → Owned ({ X with comps := X.comps ++ [c] } : DSet) := by
+      intro X hid ho
+      refine ⟨ho.1, ?_, ho.2.2⟩
+      intro c' hc'
+      rcases List.mem_append.mp hc' with hc' | hc'
+      · exact ho.2.1 c' hc'
+      · simp only [List.mem_singleton] at hc'; subst hc'; rw [hid]; exact hw
+    simp only [step]
+    split
+    · split
+      · exact h
+      · exact wfs_sync ord (wfs_modAt (s := { s with vals := _ }) true d h hf)
+    · split
+      · exact h
+      · split
+        · exact h
+        · exact wfs_modAt (s := { s with vals := _ }) false d h hf
+  | addDerived d i l =>
+    simp only [wfOp, Bool.and_eq_true, List.all_eq_true, beq_iff_eq, Bool.not_eq_true',
+      List.isEmpty_eq_false_iff] at hw
+    have hf : ∀ X : DSet, X.id = d → Owned X →
+        Owned ({ X with derived := X.derived ++ [(i, l)] } : DSet) := by
+      intro X hid ho
+      refine ⟨ho.1, ho.2.1, ?_⟩
+      intro p hp
+      rcases List.mem_append.mp hp with hp | hp
+      · exact ho.2.2 p hp
+      · simp only [List.mem_singleton] at hp; subst hp
+        exact ⟨by rw [hid]; exact hw.1.1, hw.1.2, fun f hf => by rw [hid]; exact hw.2 f hf⟩
+    simp only [step]
+    split
+    · split
+      · exact h
+      · split
+        · exact wfs_sync ord (wfs_modAt true d h hf)
+        · exact h
+    · split
+      · exact h
+      · split
+        · exact h
+        · split
+          · exact wfs_modAt false d h hf
+          · exact h
+  | removeComp d c =>
+    simp only [step]
+    split
+    · exact wfs_removeRec ord true d _ c h
+    · split
+      · exact h
+      · exact wfs_removeRec ord false d _ c h
+  | updateId d old new =>
+    simp only [wfOp, Bool.and_eq_true, beq_iff_eq] at hw
+    have hf : ∀ X : DSet, X.id = d → Owned X → Owned (renameDs old new X) :=
+      fun X hid ho => owned_rename ho (by rw [hid]; exact hw.1)
+    simp only [step]
+    split
+    · exact h
+    · split
+      · split
+        · exact h
+        · split
+          · apply wfs_sync
+            refine ⟨?_, ?_⟩
+            · intro X hX
+              simp only [List.mem_map] at hX
+              obtain ⟨X0, hX0, rfl⟩ := hX
+              exact owned_alias _ _ _ (owned_modDs h.1 (fun X _ => hf X) X0 hX0)
+            · intro X hX
+              simp only [List.mem_map] at hX
+              obtain ⟨X0, hX0, rfl⟩ := hX
+              exact owned_alias _ _ _ (h.2 X0 hX0)
+          · exact h
+      · split
+        · exact h
+        · split
+          · exact h
+          · split
+            · refine ⟨?_, ?_⟩
+              · intro X hX
+                simp only at hX
+                split at hX
+                · exact h.1 X hX
+                · simp only [List.mem_map] at hX
+                  obtain ⟨X0, hX0, rfl⟩ := hX
+                  exact owned_alias _ _ _ (h.1 X0 hX0)
+              · intro X hX
+                simp only [List.mem_map] at hX
+                obtain ⟨X0, hX0, rfl⟩ := hX
+                exact owned_alias _ _ _ (owned_modDs h.2 (fun X _ => hf X) X0 hX0)
+            · exact h
+  | addLink e =>
+    simp only [step]
+    split
+    · exact h
+    · split
+      · exact h
+      · exact wfs_sync ord (s := { s with ext := _ }) h
+  | addLinks es => simp only [step]; exact wfs_sync ord (s := { s with ext := _ }) h
+  | removeLink i =>
+    simp only [step]
+    split
+    · exact h
+    · exact wfs_sync ord (s := { s with ext := _ }) h
+  | removeLinks is => simp only [step]; exact wfs_sync ord (s := { s with ext := _ }) h
+  | delayBegin => exact h
+  | delayEnd =>
+    simp only [step]
+    split
+    · exact h
+    · exact wfs_sync ord (s := { s with delay := _ }) h
+
+/-! ### `ND` is preserved by every well-formed operation -/
+
+theorem nd_of {s s' : MState} (h : ND s)
+    (hext : ∀ e ∈ s'.ext, e ∈ s.ext ∨ ∀ c ∈ e.cids, liveCid s' c = true)
+    (hlive : ∀ e ∈ s.ext, ∀ c ∈ e.cids, liveCid s c = true → liveCid s' c = true) : ND s' := by
+  intro e he c hc
+  rcases hext e he with h1 | h2
+  · exact hlive e h1 c hc (h e h1 c hc)
+  · exact h2 c hc
+
+theorem mem_ids_rename {D : DSet} {old new c : Cid} (h : c ∈ D.ids) (hne : c ≠ old) :
+    c ∈ (renameDs old new D).ids := by
+  have hr : renameCid old new c = c := by simp [renameCid, hne]
+  simp only [DSet.ids, DSet.derivedIds, renameDs, List.mem_append, List.mem_map] at h ⊢
+  rcases h with h | ⟨p, hp, rfl⟩
+  · exact Or.inl ⟨c, h, hr⟩
+  · exact Or.inr ⟨_, ⟨p, hp, rfl⟩, by simpa [renameLink] using hr⟩
+
+theorem liveCid_map_alias (s : MState) (ds : List DSet) (links : List CLink) (old new c : Cid)
+    (h : ∃ D ∈ ds, c ∈ D.ids) : ∃ D ∈ ds.map (aliasCache links old new), c ∈ D.ids := by
+  obtain ⟨D, hD, hc⟩ := h
+  exact ⟨_, List.mem_map.mpr ⟨D, hD, rfl⟩, hc⟩
 
 theorem nd_step (ord : List Nat) (s : MState) (op : Op) (h : ND s) (hw : wfOp s op = true) :
     ND (step ord s op).1 := by
@@ -301,21 +681,19 @@ theorem nd_step (ord : List Nat) (s : MState) (op : Op) (h : ND s) (hw : wfOp s 
     · apply nd_sync
       refine nd_mono h (fun e he => Or.inl he) ?_
       intro c hc
-      rcases liveCid_cases hc with hf | ⟨D, hD, hcD⟩
-      · exact liveCid_of_free hf
-      · exact liveCid_of_mem (D := D) (List.mem_append.mpr (Or.inl hD)) hcD
+      exact liveCid_mono hc (fun D hD hcD => ⟨D, List.mem_append.mpr (Or.inl hD), hcD⟩)
   | remove d =>
     simp only [step]
     split
     · exact h
     · apply nd_dropLinks
       intro e he hp c hc
-      rcases liveCid_cases (h e he c hc) with hf | ⟨D, hD, hcD⟩
+      rcases (liveCid_iff s c).mp (h e he c hc) with hf | ⟨D, hD, hcD⟩
       · exact liveCid_of_free hf
       · by_cases hid : D.id = d
-        · -- then `e` mentions an own cid of a removed dataset: contradiction with `hp`
+        · -- then `e` mentions a cid of a removed dataset: contradiction with `hp`
           have : (List.filter (fun X => X.id == d) s.dsets).any
-              (fun D => D.comps.any (fun x => e.mentions x)) = true := by
+              (fun D => D.ids.any (fun x => e.mentions x)) = true := by
             refine List.any_eq_true.mpr ⟨D, List.mem_filter.mpr ⟨hD, by simp [hid]⟩, ?_⟩
             exact List.any_eq_true.mpr ⟨c, hcD, (mem_cids_mentions e c).mp hc⟩
           rw [this] at hp; cases hp
@@ -328,51 +706,85 @@ theorem nd_step (ord : List Nat) (s : MState) (op : Op) (h : ND s) (hw : wfOp s 
       · apply nd_sync
         refine nd_mono h (fun e he => Or.inl he) ?_
         intro c' hc'
-        rcases liveCid_cases hc' with hf | ⟨D, hD, hcD⟩
-        · exact liveCid_of_free hf
-        · by_cases hid : D.id = d
-          · refine liveCid_of_mem (D := { D with comps := D.comps ++ [c] }) ?_ ?_
-            · simp only [modDs, List.mem_map]
-              exact ⟨D, hD, by simp [hid]⟩
-            · exact List.mem_append.mpr (Or.inl hcD)
-          · refine liveCid_of_mem (D := D) ?_ hcD
-            simp only [modDs, List.mem_map]
-            exact ⟨D, hD, by simp [hid]⟩
+        refine liveCid_mono hc' (fun D hD hcD => ⟨_, modDs_mem d _ hD, ?_⟩)
+        split
+        · simp only [DSet.ids, List.mem_append] at hcD ⊢
+          rcases hcD with h1 | h1
+          · exact Or.inl (Or.inl h1)
+          · exact Or.inr h1
+        · exact hcD
     · split
       · exact h
       · split
         · exact h
         · exact nd_mono h (fun e he => Or.inl he) (fun c hc => hc)
-  | removeComp d c =>
+  | addDerived d i l =>
     simp only [step]
     split
     · split
-      · apply nd_sync
-        apply nd_dropLinks
-        intro e he hp c' hc'
-        have hne : c' ≠ c := by
-          intro heq; subst heq
-          rw [(mem_cids_mentions e c').mp hc'] at hp; cases hp
-        rcases liveCid_cases (h e he c' hc') with hf | ⟨D, hD, hcD⟩
-        · exact liveCid_of_free hf
-        · by_cases hid : D.id = d
-          · refine liveCid_of_mem (D := { D with comps := D.comps.filter (· != c) }) ?_ ?_
-            · simp only [modDs, List.mem_map]
-              exact ⟨D, hD, by simp [hid]⟩
-            · exact List.mem_filter.mpr ⟨hcD, by simpa using hne⟩
-          · refine liveCid_of_mem (D := D) ?_ hcD
-            simp only [modDs, List.mem_map]
-            exact ⟨D, hD, by simp [hid]⟩
       · exact h
+      · split
+        · apply nd_sync
+          refine nd_mono h (fun e he => Or.inl he) ?_
+          intro c' hc'
+          refine liveCid_mono hc' (fun D hD hcD => ⟨_, modDs_mem d _ hD, ?_⟩)
+          split
+          · simp only [DSet.ids, DSet.derivedIds, List.map_append, List.mem_append] at hcD ⊢
+            rcases hcD with h1 | h1
+            · exact Or.inl h1
+            · exact Or.inr (Or.inl h1)
+          · exact hcD
+        · exact h
     · split
       · exact h
       · split
-        · split
-          · apply nd_dropLinks
-            intro e he _ c' hc'
-            exact h e he c' hc'
-          · exact nd_mono h (fun e he => Or.inl he) (fun c hc => hc)
         · exact h
+        · split
+          · exact nd_mono h (fun e he => Or.inl he) (fun c hc => hc)
+          · exact h
+  | removeComp d c =>
+    simp only [step]
+    split
+    · exact nd_removeRec ord true d _ c h
+    · split
+      · exact h
+      · exact nd_removeRec ord false d _ c h
+  | updateId d old new =>
+    simp only [wfOp, Bool.and_eq_true, Bool.not_eq_true', List.any_eq_false] at hw
+    have hne : ∀ e ∈ s.ext, ∀ c ∈ e.cids, c ≠ old := by
+      intro e he c hc heq
+      subst heq
+      exact hw.2 e he ((mem_cids_mentions e c).mp hc)
+    simp only [step]
+    split
+    · exact h
+    · split
+      · split
+        · exact h
+        · split
+          · apply nd_sync
+            refine nd_of h (fun e he => Or.inl he) ?_
+            intro e he c hc hl
+            refine liveCid_mono hl (fun D hD hcD => ?_)
+            apply liveCid_map_alias s
+            refine ⟨_, modDs_mem d _ hD, ?_⟩
+            split
+            · exact mem_ids_rename hcD (hne e he c hc)
+            · exact hcD
+          · exact h
+      · split
+        · exact h
+        · split
+          · exact h
+          · split
+            · refine nd_of h (fun e he => Or.inl he) ?_
+              intro e he c hc hl
+              refine liveCid_mono hl (fun D hD hcD => ?_)
+              simp only
+              split
+              · exact ⟨D, hD, hcD⟩
+              · exact liveCid_map_alias s _ _ _ _ _ ⟨D, hD, hcD⟩
+            · exact h
   | addLink e =>
     simp only [wfOp, List.all_eq_true] at hw
     simp only [step]
@@ -417,6 +829,247 @@ theorem nd_step (ord : List Nat) (s : MState) (op : Op) (h : ND s) (hw : wfOp s 
     · apply nd_sync
       exact nd_mono h (fun e he => Or.inl he) (fun c hc => hc)
 
+/-! ### removing an unlinked dataset: its internal links were irrelevant to the others -/
+
+theorem mem_curLinks (s : MState) (l : CLink) :
+    l ∈ curLinks s ↔ (∃ X ∈ s.dsets, ∃ p ∈ X.derived, p.2 = l) ∨ l ∈ (effLinksExt s.ext).map (·.2) := by
+  simp only [curLinks, effLinks, List.map_append, List.mem_append, List.mem_map, List.mem_flatMap]
+  constructor
+  · rintro (⟨p, ⟨X, hX, hp⟩, rfl⟩ | h)
+    · exact Or.inl ⟨X, hX, p, hp, rfl⟩
+    · exact Or.inr h
+  · rintro (⟨X, hX, p, hp, rfl⟩ | h)
+    · exact Or.inl ⟨p, ⟨X, hX, hp⟩, rfl⟩
+    · exact Or.inr h
+
+/-- The target of an external link (or of its inverse) is mentioned by a stored entry. -/
+theorem ext_target_mentioned {ext : List Entry} {l : CLink} (h : l ∈ (effLinksExt ext).map (·.2)) :
+    ∃ e ∈ ext, e.mentions l.to = true := by
+  simp only [effLinksExt, List.map_append, List.mem_append, List.mem_map, List.mem_filterMap,
+    List.mem_flatMap] at h
+  rcases h with ⟨p, ⟨o, ⟨e, he, ho⟩, rfl⟩, rfl⟩ | ⟨p, ⟨o, ⟨e, he, ho⟩, hinv⟩, rfl⟩
+  · refine ⟨e, he, ?_⟩
+    simp only [Entry.mentions, List.any_eq_true]
+    exact ⟨o, ho, by simp [LinkObj.mentions]⟩
+  · refine ⟨e, he, ?_⟩
+    simp only [Entry.mentions, List.any_eq_true]
+    refine ⟨o, ho, ?_⟩
+    unfold LinkObj.inverse at hinv
+    split at hinv
+    · rename_i i g f hi hfr
+      injection hinv with hinv
+      subst hinv
+      simp [LinkObj.mentions, hfr]
+    · cases hinv
+
+theorem remove_reach {s : MState} (d : Nat) (hND : ND s) (hW : WFS s)
+    {G : DSet} (hG : G ∈ s.dsets) (hGd : G.id = d)
+    (hno : ∀ e ∈ s.ext,
+      ((s.dsets.filter (fun X => X.id == d)).any fun D => D.ids.any (e.mentions ·)) = false)
+    {D : DSet} (hD : D ∈ s.dsets) (hid : D.id ≠ d) {ls' : List CLink}
+    (hm : ∀ l, l ∈ ls' ↔ l ∈ curLinks s) : ∀ c, Reachable D.comps ls' c → c.1 ≠ d := by
+  intro c hr
+  induction hr with
+  | own hc => rw [(hW.1 D hD).2.1 _ hc]; exact hid
+  | @link l hl _ ih =>
+    rcases (mem_curLinks s l).mp ((hm l).mp hl) with ⟨X, hX, p, hp, rfl⟩ | hext
+    · obtain ⟨h1, h2, h3⟩ := (hW.1 X hX).2.2 p hp
+      by_cases hXd : X.id = d
+      · obtain ⟨f, hf⟩ := List.exists_mem_of_ne_nil _ h2
+        exact absurd (by rw [h3 f hf]; exact hXd) (ih f hf)
+      · rw [h1]; exact hXd
+    · obtain ⟨e, he, hmen⟩ := ext_target_mentioned hext
+      intro hto
+      rcases (liveCid_iff s l.to).mp (hND e he l.to ((mem_cids_mentions e l.to).mpr hmen)) with hf | ⟨Y, hY, hcY⟩
+      · have : G.id = freeDs := by rw [hGd, ← hto]; simpa using hf
+        exact (hW.1 G hG).1 this
+      · have hYd : Y.id = d := by rw [← owned_ids (hW.1 Y hY) hcY]; exact hto
+        have : ((s.dsets.filter (fun X => X.id == d)).any fun D => D.ids.any (e.mentions ·)) = true :=
+          List.any_eq_true.mpr ⟨Y, List.mem_filter.mpr ⟨hY, by simp [hYd]⟩,
+            List.any_eq_true.mpr ⟨l.to, hcY, hmen⟩⟩
+        rw [hno e he] at this; cases this
+
+theorem good_remove_nodrop {s : MState} (d : Nat) (hGood : Good s) (hND : ND s) (hW : WFS s)
+    {G : DSet} (hG : G ∈ s.dsets) (hGd : G.id = d) (outside' : List DSet)
+    (hno : ∀ e ∈ s.ext,
+      ((s.dsets.filter (fun X => X.id == d)).any fun D => D.ids.any (e.mentions ·)) = false) :
+    Good { s with dsets := s.dsets.filter (fun X => X.id != d), outside := outside' } := by
+  intro h0 D hD
+  have hD0 : D ∈ s.dsets := (List.mem_filter.mp hD).1
+  have hid : D.id ≠ d := by simpa using (List.mem_filter.mp hD).2
+  obtain ⟨ls', hm, hc, hf⟩ := hGood h0 D hD0
+  let s1 : MState := { s with dsets := s.dsets.filter (fun X => X.id != d), outside := outside' }
+  have hsub : ∀ l, l ∈ curLinks s1 → l ∈ curLinks s := by
+    intro l hl
+    rcases (mem_curLinks s1 l).mp hl with ⟨X, hX, p, hp, rfl⟩ | h
+    · exact (mem_curLinks s _).mpr (Or.inl ⟨X, (List.mem_filter.mp hX).1, p, hp, rfl⟩)
+    · exact (mem_curLinks s l).mpr (Or.inr h)
+  refine ⟨ls'.filter (fun l => decide (l ∈ curLinks s1)), ?_, ?_, ?_⟩
+  · intro l
+    simp only [List.mem_filter, decide_eq_true_eq]
+    exact ⟨fun h => h.2, fun h => ⟨(hm l).mpr (hsub l h), h⟩⟩
+  · rw [hc]
+    symm
+    apply discoverLinks_filter
+    intro l hl hk
+    simp only [decide_eq_false_iff_not] at hk
+    rcases (mem_curLinks s l).mp ((hm l).mp hl) with ⟨X, hX, p, hp, rfl⟩ | h
+    · have hXd : X.id = d := by
+        apply Classical.byContradiction
+        intro hne
+        exact hk ((mem_curLinks s1 _).mpr (Or.inl ⟨X, List.mem_filter.mpr ⟨hX, by simpa using hne⟩, p, hp, rfl⟩))
+      obtain ⟨_, h2, h3⟩ := (hW.1 X hX).2.2 p hp
+      obtain ⟨f, hf'⟩ := List.exists_mem_of_ne_nil _ h2
+      refine ⟨f, hf', fun hr => ?_⟩
+      exact remove_reach d hND hW hG hGd hno hD0 hid hm f hr (by rw [h3 f hf']; exact hXd)
+    · exact absurd ((mem_curLinks s1 l).mpr (Or.inr h)) hk
+  · exact Nat.le_trans (Nat.succ_le_succ (List.length_filter_le _ _)) hf
+
+/-! ### the synchronisation invariant is preserved by every operation -/
+
+theorem good_removeRec_out (ord : List Nat) (d : Nat) (n : Nat) {s : MState} (c : Cid) (h : Good s) :
+    Good (removeRec ord false d n s c) :=
+  removeRec_ind Good ord false d (fun _ _ h => good_sub h rfl rfl (fun _ hD => hD))
+    (fun _ p h => good_dropLinks ord p h) (fun s _ => good_sync ord s) n s c h
+
+theorem good_removeRec_in (ord : List Nat) (d : Nat) (n : Nat) {s : MState} (c : Cid) (h : Good s) :
+    Good (removeRec ord true d n s c) := by
+  cases n with
+  | zero => exact h
+  | succ n =>
+    simp only [removeRec]
+    split
+    · exact h
+    · split
+      · exact good_sync ord _
+      · exact h
+
+theorem good_step (ord : List Nat) (s : MState) (op : Op) (hG : Good s) (hND : ND s) (hW : WFS s) :
+    Good (step ord s op).1 := by
+  cases op with
+  | newData d comps => exact good_sub hG rfl rfl (fun D h => h)
+  | append d =>
+    simp only [step]
+    split
+    · exact hG
+    · exact good_sync ord _
+  | remove d =>
+    simp only [step]
+    split
+    · exact hG
+    · rename_i hne
+      unfold dropLinks
+      split
+      · exact good_update ord _
+      · rename_i hany
+        obtain ⟨G, hGm⟩ := List.exists_mem_of_ne_nil _ (by simpa [List.isEmpty_iff] using hne :
+          s.dsets.filter (fun X => X.id == d) ≠ [])
+        have hG' := List.mem_filter.mp hGm
+        refine good_remove_nodrop d hG hND hW hG'.1 (by simpa using hG'.2) _ ?_
+        intro e he
+        cases hp : ((s.dsets.filter (fun X => X.id == d)).any fun D => D.ids.any (e.mentions ·)) with
+        | false => rfl
+        | true => exact absurd (List.any_eq_true.mpr ⟨e, he, hp⟩) hany
+  | addComp d c v =>
+    simp only [step]
+    split
+    · split
+      · exact hG
+      · exact good_sync ord _
+    · split
+      · exact hG
+      · split
+        · exact hG
+        · exact good_sub hG rfl rfl (fun D h => h)
+  | addDerived d i l =>
+    simp only [step]
+    split
+    · split
+      · exact hG
+      · split
+        · exact good_sync ord _
+        · exact hG
+    · split
+      · exact hG
+      · split
+        · exact hG
+        · split
+          · exact good_sub hG rfl rfl (fun D h => h)
+          · exact hG
+  | removeComp d c =>
+    simp only [step]
+    split
+    · exact good_removeRec_in ord d _ c hG
+    · split
+      · exact hG
+      · exact good_removeRec_out ord d _ c hG
+  | updateId d old new =>
+    simp only [step]
+    split
+    · exact hG
+    · split
+      · split
+        · exact hG
+        · split
+          · exact good_sync ord _
+          · exact hG
+      · split
+        · exact hG
+        · split
+          · exact hG
+          · split
+            · by_cases h0 : s.delay = 0
+              · simp only [h0, if_true]
+                exact good_sub hG h0.symm rfl (fun D h => h)
+              · exact good_of_delay h0
+            · exact hG
+  | addLink e =>
+    simp only [step]
+    split
+    · exact hG
+    · split
+      · exact hG
+      · exact good_sync ord _
+  | addLinks es =>
+    simp only [step]
+    exact good_sync ord _
+  | removeLink i =>
+    simp only [step]
+    split
+    · exact hG
+    · exact good_sync ord _
+  | removeLinks is =>
+    simp only [step]
+    exact good_sync ord _
+  | delayBegin =>
+    apply good_of_delay
+    simp [step]
+  | delayEnd =>
+    simp only [step]
+    split
+    · exact hG
+    · exact good_sync ord _
+
+theorem good_init : Good MState.init := by
+  intro _ D hD
+  simp [MState.init] at hD
+
+theorem nd_init : ND MState.init := by
+  intro e he; simp [MState.init] at he
+
+theorem wfs_init : WFS MState.init := by
+  constructor <;> intro X hX <;> simp [MState.init] at hX
+
+/-- All three invariants along a well-formed history. -/
+theorem inv_run (s : MState) (ops : List (Op × List Nat)) (hG : Good s) (hN : ND s) (hW : WFS s)
+    (hw : runWf s ops = true) : Good (run s ops) ∧ ND (run s ops) ∧ WFS (run s ops) := by
+  induction ops generalizing s with
+  | nil => exact ⟨hG, hN, hW⟩
+  | cons a r ih =>
+    obtain ⟨op, ord⟩ := a
+    simp only [runWf, Bool.and_eq_true] at hw
+    exact ih _ (good_step ord s op hG hN hW) (nd_step ord s op hN hw.1) (wfs_step ord s op hW hw.1) hw.2
+
 theorem nd_run (s : MState) (ops : List (Op × List Nat)) (h : ND s) (hw : runWf s ops = true) :
     ND (run s ops) := by
   induction ops generalizing s with
@@ -426,87 +1079,132 @@ theorem nd_run (s : MState) (ops : List (Op × List Nat)) (h : ND s) (hw : runWf
     simp only [runWf, Bool.and_eq_true] at hw
     exact ih _ (nd_step ord s op h hw.1) hw.2
 
-/-- After `remove_component(c)` on a dataset registered with the hub no stored link mentions `c`. -/
-theorem dropLinks_none (ord : List Nat) (p : Entry → Bool) (s : MState) :
-    ∀ e ∈ (dropLinks ord p s).ext, p e = false := by
-  unfold dropLinks
-  split
-  · intro e he
-    simp only [update_ext, List.mem_filter, Bool.not_eq_true'] at he
-    exact he.2
-  · rename_i hany
-    intro e he
-    cases hp : p e with
-    | false => rfl
-    | true => exact absurd (List.any_eq_true.mpr ⟨e, he, hp⟩) hany
-
 /-! ### what a synchronised dataset reads -/
 
-theorem curLinks_scan (s : MState) (ord : List Nat) :
-    ∀ l, l ∈ curLinks s ↔ l ∈ scanList ord (effLinks s.ext) :=
-  fun l => (mem_scanList ord (effLinks s.ext) l).symm
+theorem get_map_derived {ds : List (Nat × CLink)} {c : Cid} {l : CLink}
+    (h : get (ds.map fun p => (p.2.to, p.2)) c = some l) : ∃ p ∈ ds, p.2 = l ∧ p.2.to = c := by
+  induction ds with
+  | nil => cases h
+  | cons a r ih =>
+    simp only [List.map_cons, get_cons] at h
+    split at h
+    · rename_i hc
+      injection h with h
+      exact ⟨a, List.mem_cons_self .., h, hc.symm⟩
+    · obtain ⟨p, hp, h1, h2⟩ := ih h
+      exact ⟨p, List.mem_cons_of_mem _ hp, h1, h2⟩
 
-theorem synced_read_eq {s : MState} {D : DSet} {ord : List Nat}
-    (hc : D.cache = discoverLinks D.comps (scanList ord (effLinks s.ext)))
-    (hf : D.fuel = (scanList ord (effLinks s.ext)).length + 1) :
-    readCid s D = installedVal D.comps (ownVal s.vals) applyFn (scanList ord (effLinks s.ext))
-      (discoverLinks D.comps (scanList ord (effLinks s.ext))) := by
+/-- Under `internalFirst` the dict `get_data` uses agrees with the installed one. -/
+theorem viaAll_get {D : DSet} (h : internalFirst D = true) (c : Cid) :
+    get D.viaAll c = get D.cache.via c := by
+  simp only [DSet.viaAll, get_append]
+  split
+  · rename_i l hl
+    obtain ⟨p, hp, rfl, rfl⟩ := get_map_derived hl
+    simp only [internalFirst, List.all_eq_true, beq_iff_eq] at h
+    exact (h p hp).symm
+  · rfl
+
+/-- Once the fuel covers the longest recorded chain, more fuel changes nothing. -/
+theorem installed_fuel (own : List Cid) (ls' : List CLink) (ownVal : Cid → Val) (N : Nat)
+    (hN : ls'.length + 2 ≤ N) :
+    evalC own ownVal applyFn (discoverLinks own ls').via N =
+      installedVal own ownVal applyFn ls' (discoverLinks own ls') := by
   funext c
-  simp only [readCid, installedVal, hc, hf]
+  have hF := discover_fix own ls'
+  have hb : ∀ c d, get (discoverLinks own ls').depth c = some d → d + 1 ≤ ls'.length + 2 :=
+    fun c d h => by have := discover_depth_le_length own ls' c d h; omega
+  have hbN : ∀ c d, get (discoverLinks own ls').depth c = some d → d + 1 ≤ N :=
+    fun c d h => Nat.le_trans (hb c d h) hN
+  cases h : installedVal own ownVal applyFn ls' (discoverLinks own ls') c with
+  | some v => exact evalC_mono_le own ownVal applyFn _ hN c v h
+  | none =>
+    have h1 := fix_installed_isSome hF ownVal applyFn (ls'.length + 2) hb c
+    have h2 := fix_installed_isSome hF ownVal applyFn N hbN c
+    cases h3 : evalC own ownVal applyFn (discoverLinks own ls').via N c with
+    | none => rfl
+    | some v =>
+      have := h1.mpr (h2.mp (by simp [h3]))
+      simp only [installedVal] at h
+      rw [h] at this; cases this
 
-theorem synced_specOk {s : MState} (hS : Synced s) {D : DSet} (hD : D ∈ s.dsets) (c : Cid) :
+theorem synced_read_eq {s : MState} {D : DSet} {ls' : List CLink}
+    (hc : D.cache = discoverLinks D.comps ls') (hf : ls'.length + 1 ≤ D.fuel)
+    (hi : internalFirst D = true) :
+    readCid s D = installedVal D.comps (ownVal s.vals) applyFn ls' (discoverLinks D.comps ls') := by
+  funext c
+  simp only [readCid, readCidN]
+  rw [evalC_congr_via D.comps (ownVal s.vals) applyFn (viaAll_get hi), hc,
+    installed_fuel D.comps ls' (ownVal s.vals) _ (by omega)]
+
+theorem synced_specOk {s : MState} (hS : Synced s) {D : DSet} (hD : D ∈ s.dsets)
+    (hi : internalFirst D = true) (c : Cid) :
     specOkAt D.comps (curLinks s) (ownVal s.vals) applyFn (readCid s D) c = true := by
-  obtain ⟨ord, hc, hf⟩ := hS D hD
-  rw [synced_read_eq hc hf]
-  exact discover_specOkAt D.comps (curLinks s) _ (curLinks_scan s ord) (ownVal s.vals) applyFn c
+  obtain ⟨ls', hm, hc, hf⟩ := hS D hD
+  rw [synced_read_eq hc hf hi]
+  exact discover_specOkAt D.comps (curLinks s) _ (fun l => (hm l).symm) (ownVal s.vals) applyFn c
 
 theorem synced_derivable {s : MState} (hS : Synced s) {D : DSet} (hD : D ∈ s.dsets) (c : Cid) :
     isDerivable D c = true ↔ (Reachable D.comps (curLinks s) c ∧ c ∉ D.comps) := by
-  obtain ⟨ord, hc, _⟩ := hS D hD
-  have hF := discover_fix D.comps (scanList ord (effLinks s.ext))
+  obtain ⟨ls', hm, hc, _⟩ := hS D hD
+  have hF := discover_fix D.comps ls'
   unfold isDerivable
   rw [hc, fix_via_isSome hF c, fix_reachable hF c]
   constructor
   · rintro ⟨h1, h2⟩
-    exact ⟨reachable_congr (fun l => (curLinks_scan s ord l).symm) h1, h2⟩
+    exact ⟨reachable_congr hm h1, h2⟩
   · rintro ⟨h1, h2⟩
-    exact ⟨reachable_congr (curLinks_scan s ord) h1, h2⟩
+    exact ⟨reachable_congr (fun l => (hm l).symm) h1, h2⟩
 
-theorem synced_readable {s : MState} (hS : Synced s) {D : DSet} (hD : D ∈ s.dsets) (c : Cid) :
+theorem synced_readable {s : MState} (hS : Synced s) {D : DSet} (hD : D ∈ s.dsets)
+    (hi : internalFirst D = true) (c : Cid) :
     (readCid s D c).isSome = true ↔ Reachable D.comps (curLinks s) c := by
-  obtain ⟨ord, hc, hf⟩ := hS D hD
-  have hF := discover_fix D.comps (scanList ord (effLinks s.ext))
-  have hN : ∀ c d, get (discoverLinks D.comps (scanList ord (effLinks s.ext))).depth c = some d →
-      d + 1 ≤ (scanList ord (effLinks s.ext)).length + 1 + 1 :=
+  obtain ⟨ls', hm, hc, hf⟩ := hS D hD
+  have hF := discover_fix D.comps ls'
+  have hN : ∀ c d, get (discoverLinks D.comps ls').depth c = some d → d + 1 ≤ ls'.length + 1 + 1 :=
     fun c d h => by
-      have := discover_depth_le_length D.comps (scanList ord (effLinks s.ext)) c d h
+      have := discover_depth_le_length D.comps ls' c d h
       omega
   have := fix_installed_isSome hF (ownVal s.vals) applyFn _ hN c
-  simp only [readCid, hc, hf]
+  rw [synced_read_eq hc hf hi]
+  simp only [installedVal]
   rw [this]
   constructor
-  · exact reachable_congr (fun l => (curLinks_scan s ord l).symm)
-  · exact reachable_congr (curLinks_scan s ord)
+  · exact reachable_congr hm
+  · exact reachable_congr (fun l => (hm l).symm)
 
-theorem synced_minVal {s : MState} (hS : Synced s) {D : DSet} (hD : D ∈ s.dsets) (c : Cid) (v : Val)
-    (hv : readCid s D c = some v) :
+theorem synced_minVal {s : MState} (hS : Synced s) {D : DSet} (hD : D ∈ s.dsets)
+    (hi : internalFirst D = true) (c : Cid) (v : Val) (hv : readCid s D c = some v) :
     MinVal D.comps (curLinks s) (ownVal s.vals) applyFn c v := by
-  have hr : Reachable D.comps (curLinks s) c := (synced_readable hS hD c).mp (by simp [hv])
+  have hr : Reachable D.comps (curLinks s) c := (synced_readable hS hD hi c).mp (by simp [hv])
   obtain ⟨k, hk⟩ := reachable_derivLe hr
   exact specOk_minVal D.comps (curLinks s) (ownVal s.vals) applyFn (readCid s D)
-    (fun c => synced_specOk hS hD c) k c v hk hv
+    (fun c => synced_specOk hS hD hi c) k c v hk hv
 
 /-! ### post-conditions of the two removal handlers -/
 
 theorem removeComp_forgets (ord : List Nat) (s : MState) (d : Nat) (c : Cid) (D : DSet)
-    (hf : findDs s.dsets d = some D) (hc : c ∈ D.comps) :
+    (hf : findDs s.dsets d = some D) (hc : c ∈ D.ids) :
     ∀ e ∈ (step ord s (.removeComp d c)).1.ext, e.mentions c = false := by
-  simp only [step, hf, hc, if_true]
+  have hds : dsAt true s d = some D := hf
+  simp only [step, hf, removeRec, hds, hc, if_true]
   rw [sync_ext]
-  exact dropLinks_none ord _ _
+  intro e he
+  exact (dropLinks_ext_sub ord _ _ e he).2
+
+/-- … and none of the cids removed by the cascade. -/
+theorem removeComp_forgets_all (ord : List Nat) (s : MState) (d : Nat) (c : Cid) :
+    ∀ e ∈ (step ord s (.removeComp d c)).1.ext, ∀ c' ∈ e.cids, liveCid s c' = true →
+      liveCid (step ord s (.removeComp d c)).1 c' = true := by
+  simp only [step]
+  split
+  · exact removeRec_forgets ord true d _ s c
+  · split
+    · intro _ _ _ _ h; exact h
+    · exact removeRec_forgets ord false d _ s c
 
 theorem remove_forgets (ord : List Nat) (s : MState) (d : Nat) :
-    ∀ e ∈ (step ord s (.remove d)).1.ext, ∀ D ∈ s.dsets, D.id = d → ∀ c ∈ D.comps,
+    ∀ e ∈ (step ord s (.remove d)).1.ext, ∀ D ∈ s.dsets, D.id = d → ∀ c ∈ D.ids,
       e.mentions c = false := by
   intro e he D hD hid c hc
   simp only [step] at he
@@ -515,12 +1213,12 @@ theorem remove_forgets (ord : List Nat) (s : MState) (d : Nat) :
     have : D ∈ List.filter (fun X => X.id == d) s.dsets := List.mem_filter.mpr ⟨hD, by simp [hid]⟩
     simp only [List.isEmpty_iff] at hemp
     rw [hemp] at this; cases this
-  · have := dropLinks_none ord _ _ e he
+  · have := (dropLinks_ext_sub ord _ _ e he).2
     cases hm : e.mentions c with
     | false => rfl
     | true =>
       have h2 : (List.filter (fun X => X.id == d) s.dsets).any
-          (fun D => D.comps.any (fun x => e.mentions x)) = true :=
+          (fun D => D.ids.any (fun x => e.mentions x)) = true :=
         List.any_eq_true.mpr ⟨D, List.mem_filter.mpr ⟨hD, by simp [hid]⟩,
           List.any_eq_true.mpr ⟨c, hc, hm⟩⟩
       rw [h2] at this; cases this
